@@ -623,7 +623,7 @@ func (p *pool) close() {
 }
 
 const (
-	viaOpen   = "FileStore.Open"  // files hard-linked into one directory, opened with the real FileStore.Open
+	viaOpen   = "FileStore.Open" // files hard-linked into one directory, opened with the real FileStore.Open
 	viaPooled = "pooled-readers" // real TSMReaders (tombstones loaded from disk) opened once and handed to a FileStore
 )
 
@@ -780,9 +780,9 @@ func replayCase(cs Case) (bool, string) {
 func TestCheck(t *testing.T) {
 	vlib.Main(t, &vlib.Check{
 		ID: "C06", Level: "exploration",
-		Rule: "one series key per block type (5 keys with identical layout per file); file = any non-empty subset of timestamps {1..N} split into 1-2 contiguous blocks (N=5: 80 layouts, N=4: 32, N=3: 12) x tombstone set in {none, whole key, [2,3], [1,1], [N,N+4], [1,1]+[2,3]}, written with the real TSMWriter/Tombstoner; " +
-			"QUICK: (a) every ordered pair of files for N=3, all 6x6 tombstone combinations, hard-linked into a directory and opened with the real FileStore.Open; (b) every ordered pair for N=4, all tombstone combinations, and (c) every ordered pair for N=5 with a tombstone set on at most one file - (b),(c) use real TSMReaders (tombstones loaded from disk) opened once per variant and handed to a FileStore in path order. " +
-			"THOROUGH: (a) as quick but N=4; (b) every ordered pair for N=5, all tombstone combinations; (c) every ordered triple for N=5 without tombstones; (d) every ordered triple for N=4 with all 6^3 tombstone combinations; (b)-(d) with pooled readers. " +
+		Rule: "one series key per block type (5 keys with identical layout per file); file = any non-empty subset of timestamps {1..N} split into 1-2 contiguous blocks (N=5: 80 layouts, N=4: 32, N=3: 12, N=2: 4) x tombstone set in {none, whole key, [2,3], [1,1], [N,N+4], [1,1]+[2,3]}, written with the real TSMWriter/Tombstoner; " +
+			"QUICK: (a) every ordered pair of files for N=2, all 6x6 tombstone combinations, hard-linked into a directory and opened with the real FileStore.Open; (b) every ordered pair for N=4, all tombstone combinations, and (c) every ordered pair for N=5 with a tombstone set on at most one file - (b),(c) use real TSMReaders (tombstones loaded from disk) opened once per variant and handed to a FileStore in path order. " +
+			"THOROUGH: (a) as quick but N=4; (b) every ordered pair for N=5, all tombstone combinations; (c) every ordered triple for N=3 with all 6^3 tombstone combinations; (d) every ordered triple for N=5 without tombstones; (e) every ordered triple for N=4 with all 6^3 tombstone combinations (the largest family, last: the budget may cap it); (b)-(e) with pooled readers. " +
 			"Per file set: every seek time 0..N+1 x ascending/descending x Read<T>Block/Read<T>ArrayBlock x 5 block types, driven read, Next(), read ... until an empty block; one evaluation = one cursor run; oracle = newest-file-wins merge of per-file live points restricted to the seek side, compared in consumer yield order; " +
 			"non-trivial = runs whose expected yield is non-empty and where blocks of two different files overlap in time (distinct by construction)",
 		Assumptions: []string{
@@ -800,7 +800,7 @@ func TestCheck(t *testing.T) {
 			defer os.RemoveAll(scratch)
 			var idx int64
 			if c.Quick() {
-				if !explore(c, scratch, &idx, viaOpen, 2, 3, -1, "(a) pairs N=3 via FileStore.Open") {
+				if !explore(c, scratch, &idx, viaOpen, 2, 2, -1, "(a) pairs N=2 via FileStore.Open") {
 					return
 				}
 				if !explore(c, scratch, &idx, viaPooled, 2, 4, -1, "(b) pairs N=4") {
@@ -815,10 +815,13 @@ func TestCheck(t *testing.T) {
 			if !explore(c, scratch, &idx, viaPooled, 2, 5, -1, "(b) pairs N=5") {
 				return
 			}
-			if !explore(c, scratch, &idx, viaPooled, 3, 5, 0, "(c) triples N=5 without tombstones") {
+			if !explore(c, scratch, &idx, viaPooled, 3, 3, -1, "(c) triples N=3") {
 				return
 			}
-			explore(c, scratch, &idx, viaPooled, 3, 4, -1, "(d) triples N=4")
+			if !explore(c, scratch, &idx, viaPooled, 3, 5, 0, "(d) triples N=5 without tombstones") {
+				return
+			}
+			explore(c, scratch, &idx, viaPooled, 3, 4, -1, "(e) triples N=4")
 		},
 		Replay: func(c *vlib.Ctx, raw json.RawMessage) (bool, string) {
 			var cs Case
